@@ -55,13 +55,65 @@ def keyset_of(node, env):
     return None
 
 
-def values_fn(fn, op_cls, left_is_first):
+class _Rename(ast.NodeTransformer):
+    def __init__(self, m):
+        self.m = m
+
+    def visit_Name(self, n):
+        return ast.copy_location(ast.Name(id=self.m.get(n.id, n.id), ctx=n.ctx), n)
+
+
+def inline_helpers(mod, body, depth=3):
+    """Statement-level inlining of `x = helper(a, b)` where `helper` is a module-level function with plain
+    positional parameters, called with plain names, whose body is straight-line statements / guards ending
+    in its only `return`.  The helper's statements are spliced in (parameters replaced by the argument names,
+    its locals renamed apart), the final `return e` becomes `x = e`.  The spliced code is then parsed by the
+    same shape checks as hand-inlined code, so extracting a helper neither hides nor admits anything.
+    Any other helper shape fails closed."""
+    import copy
+
+    fns = {n.name: n for n in mod.body if isinstance(n, ast.FunctionDef)}
+    out = []
+    for st in body:
+        v = st.value if isinstance(st, ast.Assign) and len(st.targets) == 1 and isinstance(st.targets[0], ast.Name) else None
+        if not (isinstance(v, ast.Call) and isinstance(v.func, ast.Name) and v.func.id in fns):
+            out.append(st)
+            continue
+        if depth <= 0:
+            fail("helper calls nested too deeply", st)
+        h = fns[v.func.id]
+        params = [a.arg for a in h.args.args]
+        if (v.keywords or h.args.defaults or h.args.vararg or h.args.kwarg or h.args.kwonlyargs or h.args.posonlyargs
+                or h.decorator_list or len(v.args) != len(params) or not all(isinstance(a, ast.Name) for a in v.args)):
+            fail(f"call of helper {h.name} has an unsupported shape", st)
+        hb = [x for x in h.body if not (isinstance(x, ast.Expr) and isinstance(x.value, ast.Constant))]
+        if not hb or not isinstance(hb[-1], ast.Return) or hb[-1].value is None:
+            fail(f"helper {h.name} does not end in `return <expr>`", h)
+        for x in hb[:-1]:
+            for n in ast.walk(x):
+                if isinstance(n, (ast.Return, ast.FunctionDef, ast.Lambda, ast.Global, ast.Nonlocal, ast.Yield,
+                                  ast.YieldFrom, ast.Await, ast.NamedExpr)):
+                    fail(f"helper {h.name} is not straight-line code with a single return", n)
+        assigned = {t.id for x in hb for n in ast.walk(x) if isinstance(n, (ast.Assign, ast.AugAssign, ast.AnnAssign))
+                    for t in ast.walk(n) if isinstance(t, ast.Name) and isinstance(t.ctx, ast.Store)}
+        if assigned & set(params):
+            fail(f"helper {h.name} reassigns a parameter", h)
+        m = {p_: a.id for p_, a in zip(params, v.args)}
+        m.update({loc: f"_{h.name}__{loc}" for loc in assigned})
+        ren = [_Rename(m).visit(copy.deepcopy(x)) for x in hb]
+        spliced = ren[:-1] + [ast.copy_location(ast.Assign(targets=[st.targets[0]], value=ren[-1].value), st)]
+        out += inline_helpers(mod, spliced, depth - 1)
+    return out
+
+
+def values_fn(mod, fn, op_cls, left_is_first):
     """-> carried key.  `first`/`second` are the two parameters."""
     if len(fn.args.args) != 2 or fn.args.defaults or fn.args.vararg or fn.args.kwarg:
         fail(f"{fn.name}: expected exactly two positional parameters", fn)
     first, second = (a.arg for a in fn.args.args)
     env = {}
     body = [s for s in fn.body if not (isinstance(s, ast.Expr) and isinstance(s.value, ast.Constant))]
+    body = inline_helpers(mod, body)
     guard_seen = False
     ret = None
     for s in body:
@@ -223,8 +275,8 @@ def cbytes(s: str) -> str:
 def translate(repo) -> str:
     src = (Path(repo) / "bermuda" / "utils" / "basis.py").read_text()
     mod = ast.parse(src)
-    cd = values_fn(func(mod, "_values_diff"), ast.Sub, left_is_first=False)
-    ca = values_fn(func(mod, "_values_add"), ast.Add, left_is_first=True)
+    cd = values_fn(mod, func(mod, "_values_diff"), ast.Sub, left_is_first=False)
+    ca = values_fn(mod, func(mod, "_values_add"), ast.Add, left_is_first=True)
     o1 = off_first(func(mod, "to_incremental"))
     o2 = off_check(func(mod, "to_cumulative"))
     z = lambda n: f"({n})" if n < 0 else str(n)  # noqa: E731
